@@ -745,3 +745,44 @@ pub mod time {
         }
     }
 }
+
+// ---------------------------------------------------------------- map iteration order
+
+thread_local! {
+    static MAP_SEED: std::cell::Cell<Option<u64>> = const { std::cell::Cell::new(None) };
+}
+
+/// Pin (Some) or release (None) the hash seed of every [`MapState`] created on this thread from now on.
+pub fn set_map_seed(seed: Option<u64>) {
+    MAP_SEED.with(|s| s.set(seed));
+}
+
+/// `BuildHasher` of the registry's collector map in verification builds: randomly keyed like std's
+/// `RandomState` unless a seed was pinned on the constructing thread, so that a scheduler which
+/// re-executes schedules sees the same iteration order every time.
+#[derive(Clone)]
+pub struct MapState {
+    seed: Option<u64>,
+    random: std::collections::hash_map::RandomState,
+}
+
+impl Default for MapState {
+    fn default() -> Self {
+        MapState { seed: MAP_SEED.with(|s| s.get()), random: std::collections::hash_map::RandomState::new() }
+    }
+}
+
+impl std::hash::BuildHasher for MapState {
+    type Hasher = std::collections::hash_map::DefaultHasher;
+    fn build_hasher(&self) -> Self::Hasher {
+        match self.seed {
+            Some(s) => {
+                use std::hash::Hasher;
+                let mut h = std::collections::hash_map::DefaultHasher::new();
+                h.write_u64(s);
+                h
+            }
+            None => self.random.build_hasher(),
+        }
+    }
+}
